@@ -99,7 +99,11 @@ def run(tier):
             if res["rc"] == 6:
                 return
             if res["timeout"]:
-                ck.violation("C09:timeout@%s,threads=%d" % (name, t), "schedule [%s] exceeded the watchdog" % devs, rep)
+                # under the scheduler a genuine hang is a detected deadlock / livelock; a wall-clock timeout first gets a second run alone with a long limit
+                res = schedlib.run_schedule(exe, [streams_[name], "threads=%d" % t], res["devs"], None, 900, policy=res.get("policy", 0), stalls=res.get("stalls") or ())
+                out = res.get("out") or {}
+            if res["timeout"]:
+                ck.violation("C09:timeout@%s,threads=%d" % (name, t), "schedule [%s] exceeded 120 s and, run alone, 900 s" % devs, rep)
             elif res["rc"] == 3 or out.get("deadlock") or out.get("livelock"):
                 kind = "livelock" if out.get("livelock") else "deadlock"
                 ck.violation("C09:%s@%s,threads=%d" % (kind, name, t), "schedule [%s]: %s" % (devs, json.dumps(out)[:300]), rep)
